@@ -374,7 +374,7 @@ class Main(Suite):
     name = "main"
     go_cmd = "c24"
     coq_imports = "From GoGit Require Import Model.SharedFile."
-    quick_n = 300
+    quick_n = 240
     thorough_n = 2500
     coq_chunk = 40
 
